@@ -67,7 +67,7 @@ func (w *world) scaleCell(positions []int, kind int) {
 			w.bad(g, kind, id)
 		}
 	}
-	name := []string{"stale-id", "simple-majority", "no-status", "absent"}[kind]
+	name := kindNames[kind]
 	w.logf("scale-cell", "positions", positions, "defect", name, "regions", len(w.regs))
 	r.Count("scale_grid_cells", 1)
 	r.Count("scale_grid_cells_"+name, 1)
@@ -109,7 +109,7 @@ func scaleGrid(r *ev.Run, opts *config.PersistOptions, seed int64) {
 		w.p.Hist = -4000 - wi
 		hp := hotPositions(sw.N)
 		for _, p := range hp {
-			for kind := dkStale; kind <= dkGap; kind++ {
+			for kind := dkStale; kind <= dkHigh; kind++ {
 				if w.dead {
 					break
 				}
@@ -120,7 +120,7 @@ func scaleGrid(r *ev.Run, opts *config.PersistOptions, seed int64) {
 		pairs := [][]int{{511, 512}, {1023, 1024}, {1024, 1025}, {512, 1024}, {1023, 2048}, {2047, 2048}, {2048, sw.N - 1}, {0, sw.N - 1}}
 		for pi, pr := range pairs {
 			if pr[0] < pr[1] && pr[1] < sw.N && !w.dead {
-				w.scaleCell(pr, pi%4)
+				w.scaleCell(pr, pi%5)
 			}
 		}
 		r.Count("scale_grid_worlds", 1)
